@@ -238,4 +238,5 @@ def get_attributes(source: str, start: int, end: int, name: str=None):
 
 def is_self_close(name: str, options: ScannerOptions):
     "Check if given tag is self-close for current parsing context"
-    return not options.xml and name in options.empty
+    # HTML tag names are case-insensitive: `<BR>` is an empty element as well
+    return not options.xml and name.lower() in options.empty
